@@ -152,12 +152,42 @@ class C02(Prop):
         return {"toks": toks, "src": src, "inputs": inputs}
 
     def gen_case(self, rng):
+        if rng.chance(1, 12):
+            return self.gen_wildcard_edge(rng)
         if rng.chance(1, 8):
             return self.gen_shared_prefix(rng)
         toks = self.gen_tokens(rng, 0, False, 8)
         used = sorted(_hir.hex_bytes_used(toks, set()))
         alphabet = (used * 3 + ALPHA[:4]) if used else ALPHA
         inputs = [self.gen_input(rng.fork("i%d" % i), toks, alphabet).hex() for i in range(4)]
+        src = "rule r { strings: $a = { %s } condition: $a or true }" % _hir.hex_text(toks)
+        return {"toks": toks, "src": src, "inputs": inputs}
+
+    def gen_wildcard_edge(self, rng):
+        """a literal run with runs of consecutive `??` (merged into one jump node by the simple validator) before
+        and/or after it; the inputs END or START at every position inside those runs, so that the bytes left
+        next to the atom fall between the number of nodes and the real length of the expression."""
+        lit = [["b", rng.choice([0x41, 0x42, 0x43, 0x44, 0x61])] for _ in range(4)]
+        def run():
+            k = rng.range(2, 5)
+            r = [["m", 0, "A"] for _ in range(k)]
+            if rng.chance(1, 3):
+                r.insert(rng.range(1, k), ["m", rng.below(16), rng.choice(["L", "R"])])
+            return r
+        def closing():
+            return [] if rng.chance(1, 2) else [["b", rng.choice([0x45, 0x00])]]
+        shape = rng.below(3)
+        before = (closing() + run()) if shape in (1, 2) else []
+        after = (run() + closing()) if shape in (0, 2) else []
+        toks = before + lit + after
+        member = _hir.hex_member(rng, toks, [0x78, 0x79, 0x7A])
+        nb, na = len(before), len(after)
+        inputs = [(b"xx" + member + b"yz").hex(), member.hex()]
+        for cut in range(len(member) - na, len(member)):        # ends inside (or right before) the trailing run
+            inputs.append((rng.choice([b"", b"x", b"xx"]) + member[:cut]).hex())
+        for cut in range(1, nb + 1):                             # starts inside (or right after) the leading run
+            inputs.append((member[cut:] + rng.choice([b"", b"y"])).hex())
+        inputs = list(dict.fromkeys(inputs))[:10]
         src = "rule r { strings: $a = { %s } condition: $a or true }" % _hir.hex_text(toks)
         return {"toks": toks, "src": src, "inputs": inputs}
 
@@ -257,8 +287,8 @@ class C02(Prop):
             outs.append(_hir.g_matches(ms))
         ins = glist([gbytes(bytes.fromhex(h)) for h in case["inputs"]])
         kr, kf = _hir.half_codes(out["desc"][0]["kind"])
-        return "let d := %s in with_kinds (kinds_ok d %d %d) (C02_case %s d %s %s)" % (
-            _hir.g_sdesc(out["desc"][0]), kr, kf, _hir.g_tokens(case["toks"]), ins, glist(outs))
+        return "let d := %s in with_kinds (kinds_ok d %d %d && classes_ok %s) (C02_case %s d %s %s)" % (
+            _hir.g_sdesc(out["desc"][0]), kr, kf, _hir.g_classes(out["desc"][0]["hir"]), _hir.g_tokens(case["toks"]), ins, glist(outs))
 
     def nontrivial(self, case, out):
         if not isinstance(out, dict) or "scans" not in out:
